@@ -52,7 +52,12 @@ Inductive c05case :=
 | C05 (c_ns : str) (c_ignore : bool) (c_table : list (str * pfres))
       (c_lo c_hi : Z)                                   (* wall-clock window, Unix seconds *)
       (c_batches : list (list (datagram * obs_dg) * obs_batch))
-| LexSeq (q_table : list (str * pfres)) (q_steps : list lexstep).   (* ONE real lexer, line after line *)
+| LexSeq (q_table : list (str * pfres)) (q_steps : list lexstep)    (* ONE real lexer, line after line *)
+| Recv (r_ns : str) (r_table : list (str * pfres)) (r_ip : str)
+       (r_sent : list str)                       (* the datagrams written to the socket, in order *)
+       (r_maps : list (list entry))              (* every MetricMap the handler was given, any order *)
+       (r_events : list event)                   (* every event the handler was given, any order *)
+       (r_ctr : counters).                       (* the parsers' counters at the end *)
 
 (* ---- maps *)
 Definition two64z : Z := 18446744073709551616.
@@ -151,10 +156,66 @@ Fixpoint check_steps (t : list (str * pfres)) (st : lexstate) (steps : list lexs
       sobs_ok (st_obs x) res && check_steps t st' r
   end.
 
+(* ---- real receiver + parser(s) under sustained traffic: how the receiver cuts the stream into
+   batches and which parser takes which batch is free, so the comparison is over the merge of all
+   dispatched maps (MetricMap.merge_maps, timestamps zeroed, timer values as multisets) against
+   Receive folded over the metrics of all sent datagrams; events as multisets; counter totals *)
+Fixpoint zinsert (x : Z) (l : list Z) : list Z :=
+  match l with [] => [x] | y :: r => if (x <=? y)%Z then x :: l else y :: zinsert x r end.
+Definition zsort (l : list Z) : list Z := fold_right zinsert [] l.
+
+Definition zero_ts (e : entry) : entry :=
+  match e with
+  | EC n k v _ s tg => EC n k v 0 s tg
+  | EG n k v _ s tg => EG n k v 0 s tg
+  | ET n k vs sn sd _ s tg => ET n k vs sn sd 0 s tg
+  | ES n k ms _ s tg => ES n k ms 0 s tg
+  end.
+Definition norm_entry (e : entry) : entry :=
+  match e with
+  | ET n k vs sn sd _ s tg => ET n k (zsort vs) sn sd 0 s tg
+  | _ => zero_ts e
+  end.
+
+Fixpoint remove_event (e : event) (l : list event) : option (list event) :=
+  match l with
+  | [] => None
+  | x :: r => if event_eqb x e then Some r
+              else match remove_event e r with Some r' => Some (x :: r') | None => None end
+  end.
+Fixpoint events_perm (a b : list event) : bool :=
+  match a with
+  | [] => match b with [] => true | _ => false end
+  | x :: r => match remove_event x b with Some b' => events_perm r b' | None => false end
+  end.
+
+Definition recv_model (t : list (str * pfres)) (ns ip : str) (sent : list str) : option (mmap * list event * counters) :=
+  match parse_all (oracle t) (Cfg ns false) (map (fun m => Dg ip 0 m) sent) with
+  | DgOk r => Some (receive_all empty_map (dg_metrics r), dg_events r,
+                    Ctr (N.of_nat (length (dg_metrics r))) (dg_nevents r) (dg_bad r))
+  | _ => None
+  end.
+
+Definition wellformed_dump (es : list entry) : bool :=
+  (length es =? length (entries (map_of_entries es)))%nat.
+
+Definition check_recv (t : list (str * pfres)) (ns ip : str) (sent : list str)
+           (maps : list (list entry)) (evs : list event) (ctr : counters) : bool :=
+  match recv_model t ns ip sent with
+  | None => false
+  | Some (expect, mevs, mctr) =>
+      let got := merge_maps (map (fun es => map_of_entries (map zero_ts es)) maps) in
+      forallb wellformed_dump maps
+      && list_eqb entry_close (map norm_entry (entries got)) (map norm_entry (entries expect))
+      && events_perm mevs evs
+      && ctr_eqb ctr mctr
+  end.
+
 Definition check_case (c : c05case) : bool :=
   match c with
   | C05 ns ignore table lo hi batches => check_batches table (Cfg ns ignore) lo hi (Ctr 0 0 0) batches
   | LexSeq table steps => check_steps table zero_state steps
+  | Recv ns table ip sent maps evs ctr => check_recv table ns ip sent maps evs ctr
   end.
 
 (* what the model computed, for failing cases *)
@@ -164,7 +225,9 @@ Record explained := XB {
   x_ctr : counters;
   x_buffers : list (option str)
 }.
-Inductive c05explain := XBatches (l : list (option explained)) | XSeq (l : list run_result).
+Inductive c05explain :=
+| XBatches (l : list (option explained)) | XSeq (l : list run_result)
+| XRecv (expected : option (list entry * list event * counters)) (merged_observed : list entry).
 
 Definition explain_case (c : c05case) : c05explain :=
   match c with
@@ -183,4 +246,8 @@ Definition explain_case (c : c05case) : c05explain :=
          end) batches)
   | LexSeq table steps =>
       XSeq (run_lines (oracle table) zero_state (map (fun x => (st_ns x, st_pool x, st_line x)) steps))
+  | Recv ns table ip sent maps evs ctr =>
+      XRecv (match recv_model table ns ip sent with
+             | Some (m, e, c) => Some (map norm_entry (entries m), e, c) | None => None end)
+            (map norm_entry (entries (merge_maps (map (fun es => map_of_entries (map zero_ts es)) maps))))
   end.
